@@ -368,6 +368,13 @@ def rewrites(text):
                     put('split5:%s@%d' % (tag, b), lines[:s] + [L[:b], '     ' + L[b + 1:]] + lines[s + 1:])
                     put('splittab:%s@%d' % (tag, b), lines[:s] + [L[:b], '\t' + L[b + 1:]] + lines[s + 1:])
                     put('splitamp:%s@%d' % (tag, b), lines[:s] + [L[:b] + ' &', L[b + 1:]] + lines[s + 1:])
+            # the material number of a cell card is an integer field: leading zeros and a sign of zero are allowed
+            if kind == 'c' and single and '$' not in L:
+                mm = re.match(r'^(\s*\d+\s+)(\d+)(\s.*)$', L)
+                if mm and not re.search(r'(?i)\blike\b', L):
+                    alts = ['0' + mm.group(2), '00' + mm.group(2)] + (['+0', '-0'] if mm.group(2) == '0' else ['+' + mm.group(2)])
+                    for alt in alts:
+                        put('matnum:%s=%s' % (tag, alt), lines[:s] + [mm.group(1) + alt + mm.group(3)] + lines[s + 1:])
             # numbers and shorthand: one-line cards without comments only
             if single and '$' not in L and '&' not in L and '\t' not in L:
                 toks, sites, dens = number_sites(kind, L)
@@ -405,7 +412,7 @@ _SEEN = {}
 _MAIN = os.getpid()
 
 
-STRUCTURAL = ('message-block', 'upper', 'lead1', 'lead4', 'dollar', 'ccomment', 'ccomment-inside', 'blanks', 'tab',
+STRUCTURAL = ('matnum', 'message-block', 'upper', 'lead1', 'lead4', 'dollar', 'ccomment', 'ccomment-inside', 'blanks', 'tab',
               'split5', 'splittab', 'splitamp', 'shorthand')
 
 
